@@ -88,6 +88,11 @@ CLAIMS = {
    note=TB+"Programs: skeleton types.",
    technique="symbolic execution of go/ssa with native go/types bridge; reference matcher; Go type checker as judge",
    ref="4/C16"),
+ "C02": dict(
+   text="Symbolic execution of the GENERATED code: the tool built from the current tree is run on a hand-written corpus at check time, the emitted functions are executed symbolically (operands arbitrary: symbolic scalars, nil-ness of nested pointers, slice lengths 0..2/nil) next to independent hand-written reference functions; the solver decides equality of results, final operand states, returned errors and user-function call traces for all operand values, and absence of Go run-time panics; sampled paths are replayed natively (go test on the real generated code) to validate the encoding.",
+   note=TB+"Programs: the corpus (17 generated functions); integer wrap-around and float arithmetic are not interpreted (conversions uninterpreted on both sides); panics inside user code are outside.",
+   technique="symbolic execution of the tool's generated code (go/ssa) against reference functions, SMT equality of symbolic results, native replay",
+   ref="4/C02"),
 }
 
 NA_REASON = "check under construction in this session (engine exists, harness not yet registered); see DESIGN.md section 4"
